@@ -1374,3 +1374,70 @@ Proof.
   rewrite (terminate_last_ungroup _ _ Hnl), (a_ws_items_ungroup_canon _ _ _ _ _ Hcan), (terminate_last_ungroup _ _ Hnl), term_comments_idem.
   reflexivity.
 Qed.
+
+(* ---- blocks: the result is a fixed point ---- *)
+Lemma group_blocks_comments cs : forall X cur, group_blocks (map comment_block cs ++ X) cur = group_blocks X (cur ++ cs).
+Proof.
+  induction cs as [|c r IH]; intros X cur; [rewrite app_nil_r; reflexivity|].
+  cbn [map app comment_block group_blocks]. rewrite IH, <- app_assoc. destruct c; reflexivity.
+Qed.
+
+Lemma group_blocks_emit G tr : forall first cur,
+  group_blocks (emit_blocks first G ++ map comment_block tr) cur =
+  match G with [] => ([], cur ++ tr) | g :: r => ((cur ++ fst g, snd g) :: r, tr) end.
+Proof.
+  induction G as [|g r IH]; intros first cur.
+  - cbn [emit_blocks app]. rewrite <- (app_nil_r (map comment_block tr)), group_blocks_comments. reflexivity.
+  - cbn [emit_blocks]. rewrite <- !app_assoc.
+    assert (E : group_blocks ((if first then [] else [LBlank]) ++ map comment_block (fst g) ++ (LPara (snd g) :: emit_blocks false r) ++ map comment_block tr) cur
+              = group_blocks (map comment_block (fst g) ++ (LPara (snd g) :: emit_blocks false r) ++ map comment_block tr) cur)
+      by (destruct first; reflexivity).
+    rewrite E, group_blocks_comments. cbn [app group_blocks]. rewrite (IH false []).
+    destruct r as [|g2 r2]; [reflexivity|]. destruct g2; reflexivity.
+Qed.
+
+Lemma terminate_doc_emit_comments G tr first : (forall g, In g G -> terminate_last (snd g) = snd g) ->
+  terminate_doc (emit_blocks first G ++ map comment_block tr) = emit_blocks first G ++ map comment_block (term_comments tr).
+Proof.
+  intros H. destruct tr as [|c0 tr0].
+  - cbn [map term_comments]. rewrite !app_nil_r. apply terminate_doc_emit. exact H.
+  - rewrite terminate_doc_app by discriminate. rewrite terminate_doc_comments. reflexivity.
+Qed.
+
+Definition para_cmp_consistent (pcmp : option para_cmp) : Prop :=
+  match pcmp with Some p => cmp_consistent p | None => True end.
+
+Theorem a_ws_doc_idem pcmp pf l :
+  para_cmp_consistent pcmp ->
+  (forall a b, In (LPara a) l -> In (LPara b) l ->
+     match pcmp with Some p => p (flat_map item_pairs (pf a)) (flat_map item_pairs (pf b)) = p (flat_map item_pairs a) (flat_map item_pairs b) | None => True end) ->
+  (forall its, In (LPara its) l -> terminate_last (pf (terminate_last (pf its))) = terminate_last (pf its)) ->
+  a_ws_doc pcmp pf (a_ws_doc pcmp pf l) = a_ws_doc pcmp pf l.
+Proof.
+  intros Hc Hinv Hpf. unfold a_ws_doc at 2 3. pose proof (group_blocks_In l []) as HIn.
+  destruct (group_blocks l []) as [gs tr]. cbn [fst] in HIn.
+  set (h := fun g : list comment * list item => (fst g, terminate_last (pf (snd g)))).
+  set (S0 := sort_opt (option_map on_para pcmp) gs).
+  assert (Hsub : forall g, In g S0 -> In (LPara (snd g)) l) by (intros g Hg; apply HIn; apply (sort_opt_In _ _ _ Hg)).
+  assert (Hclosed : forall g, In g (map h S0) -> terminate_last (snd g) = snd g).
+  { intros g Hg. apply in_map_iff in Hg. destruct Hg as (g0 & <- & _). cbn [h snd]. apply terminate_last_idem. }
+  rewrite (terminate_doc_emit_comments _ _ _ Hclosed).
+  unfold a_ws_doc. rewrite group_blocks_emit.
+  assert (Hsorted : match option_map on_para pcmp with Some e => lsorted e (map h S0) | None => True end).
+  { destruct pcmp as [p|]; cbn [option_map]; [|exact I].
+    assert (Hs : lsorted (on_para p) S0).
+    { unfold S0. cbn [option_map sort_opt]. apply sort_by_lsorted. intros a b H. unfold on_para in *. apply Hc. exact H. }
+    revert Hs Hsub. generalize S0 as L. induction L as [|x r IH]; intros Hs Hsub; [exact I|].
+    cbn [lsorted map] in *. destruct Hs as [Hx Hr]. split; [|apply IH; [exact Hr|intros g Hg; apply Hsub; right; exact Hg]].
+    destruct r as [|y r']; [exact I|]. cbn [map]. unfold le_cmp, gtb, on_para, h in *. cbn [snd].
+    rewrite !pairs_terminate_last.
+    rewrite (Hinv (snd x) (snd y) (Hsub x (or_introl eq_refl)) (Hsub y (or_intror (or_introl eq_refl)))). exact Hx. }
+  assert (Hfix : map h (map h S0) = map h S0).
+  { rewrite map_map. apply map_ext_in. intros g Hg. unfold h. cbn [fst snd]. rewrite (Hpf (snd g) (Hsub g Hg)). reflexivity. }
+  destruct (map h S0) as [|g0 G0] eqn:EG.
+  - cbn [sort_opt map emit_blocks app]. destruct (option_map on_para pcmp); cbn [sort_opt sort_by map emit_blocks app];
+      rewrite terminate_doc_comments, term_comments_idem; reflexivity.
+  - replace (([] ++ fst g0, snd g0) :: G0) with (g0 :: G0) by (destruct g0; reflexivity).
+    rewrite (sort_opt_sorted _ _ Hsorted). fold h. rewrite Hfix.
+    rewrite (terminate_doc_emit_comments _ _ _ Hclosed), term_comments_idem. reflexivity.
+Qed.
